@@ -31,7 +31,7 @@ type SharedCase struct {
 }
 
 func genShared(t *rapid.T) SharedCase {
-	o := sm.SpecOpts{Deterministic: true, NativeToo: true, Fail: 3, GuardFail: 2, Emit: true, UserErrorNode: true, Derive: true, ArrayVar: true, IneqBound: true}
+	o := sm.SpecOpts{Deterministic: true, NativeToo: true, Fail: 3, GuardFail: 2, Emit: true, UserErrorNode: true, Derive: true, ArrayVar: true, IneqBound: true, Ext: true}
 	a := sm.GenLivelySpec(t, o)
 	c := SharedCase{Spec: a}
 	n := rapid.SampledFrom([]int{4, 4, 8, 8, 16, 32}).Draw(t, "machines")
